@@ -27,6 +27,7 @@ Implementation: AST-based async function detection with scoped_identifier path e
 
 from __future__ import annotations
 
+import re
 from dataclasses import dataclass
 from typing import TYPE_CHECKING
 
@@ -81,6 +82,8 @@ class BlockingCall:
 class RustBlockingAsyncAnalyzer(RustBaseAnalyzer):
     """Analyzer for detecting blocking operations inside async functions."""
 
+    _std_net_imports: frozenset[str] = frozenset()
+
     def find_blocking_calls(self, code: str) -> list[BlockingCall]:
         """Find all blocking calls inside async functions.
 
@@ -97,6 +100,7 @@ class RustBlockingAsyncAnalyzer(RustBaseAnalyzer):
         if root is None:
             return []
 
+        self._std_net_imports = _imported_std_net_types(code)
         calls: list[BlockingCall] = []
         self._scan_for_blocking_calls(root, code, calls)
         return calls
@@ -158,6 +162,8 @@ class RustBlockingAsyncAnalyzer(RustBaseAnalyzer):
             return None
 
         pattern = _classify_blocking_pattern(path)
+        if pattern is None and path.split("::")[0] in self._std_net_imports:
+            pattern = "net-in-async"  # e.g. TcpStream::connect after `use std::net::TcpStream;`
         if pattern is None:
             return None
 
@@ -189,6 +195,25 @@ class RustBlockingAsyncAnalyzer(RustBaseAnalyzer):
             if child.type == "scoped_identifier":
                 return self.extract_node_text(child)
         return ""
+
+
+_STD_NET_USE = re.compile(r"\buse\s+std::net::(?:\{([^}]*)\}|(\w+))")
+
+
+def _imported_std_net_types(code: str) -> frozenset[str]:
+    """Collect blocking std::net types imported by name (`use std::net::{TcpListener, TcpStream};`).
+
+    Args:
+        code: Rust source code
+
+    Returns:
+        Names from _BLOCKING_NET_TYPES that the file imports from std::net
+    """
+    names: set[str] = set()
+    for match in _STD_NET_USE.finditer(code):
+        listed = match.group(1).split(",") if match.group(1) is not None else [match.group(2)]
+        names.update(name.strip() for name in listed)
+    return frozenset(names & _BLOCKING_NET_TYPES)
 
 
 def _classify_blocking_pattern(path: str) -> str | None:
